@@ -14,13 +14,15 @@ from rules.mir import strip_generics
 
 d, h, w = facts.facts_dir("dev")
 crates = facts.load_dir(d)
-out = {"params": {}, "upvars": {}, "bodies": []}
+out = {"params": {}, "upvars": {}, "bodies": [], "sigs": {}}
 for name, data in crates.items():
     for b in data["bodies"]:
         p = b["path"]
         out["bodies"].append(strip_generics(p))
         argc = b.get("argc", 0)
         loc = b["locals"]
+        if b.get("kind") in ("Fn", "AssocFn") and name in ("anemo", "anemo_tower", "anemo_build"):
+            out["sigs"].setdefault(strip_generics(p), {"tys": [loc[i]["ty"] for i in range(0, argc + 1)]})
         if argc:
             out["params"][p] = {"tys": [loc[i]["ty"] for i in range(1, argc + 1)], "names": [loc[i].get("name") for i in range(1, argc + 1)]}
         uv = b.get("upvars") or []
